@@ -160,6 +160,48 @@ def main():
                 cc = s.contains_coordinate(c)
                 add(f'KCoord {olit(pa)} {blit(cc)} {blit(s.contains(c))}', {'k': 'coord', 'kind': k, 'dta': sa})
 
+    # collections: `collection.intersects(q)` for members that all carry time bounds is "some member intersects q"
+    # (space AND time, member by member) - also after a member has been re-timed in place, which leaves a Track's
+    # stored order non-chronological: the answer must not depend on that order.  (Implementation-side check.)
+    from geostructures.collections import Track, FeatureCollection
+    from datetime import timedelta
+    coll_bad = 0
+    n_fixed = 12
+    for n in range(n_fixed + (40 if ck.tier == 'quick' else 400)):
+        if n < n_fixed:
+            # fixed scenario: the first-stored member is re-timed (in place) to after the query's end; the member that
+            # hits the query in space and time is stored behind it
+            first, hit = ['point_out', 'point', 'box_far'][n % 3], ['point', 'triangle'][n % 2]
+            ks = [first, hit] + (['point_out'] if n % 4 == 0 else [])
+            ms = [KINDS[k](dt=mk_dt(('i', j), next(styles))) for j, k in enumerate(ks)]
+            coll = (Track if n % 2 == 0 or n > 5 else FeatureCollection)(ms)
+            q = KINDS[['polygon', 'box', 'circle'][n % 3]](dt=mk_dt(('v', 0, 3), next(styles)))
+            retime = [(coll.geoshapes[0], ('i', 4))]
+        else:
+            ks = [rng.choice(['point', 'point_out', 'box', 'box_far', 'triangle', 'line']) for _ in range(rng.randint(2, 5))]
+            ms = [KINDS[k](dt=mk_dt(rng.choice([('i', rng.randrange(5)), ('v', 0, 2), ('v', 2, 4), ('v', 1, 3)]), next(styles))) for k in ks]
+            coll = (Track if n % 2 else FeatureCollection)(ms)
+            q = KINDS[rng.choice(['polygon', 'box', 'circle', 'box_far'])](dt=mk_dt(rng.choice(specs[1:]), next(styles)))
+            retime = None
+        for step in range(3):
+            want = any(m.intersects(q) for m in coll.geoshapes)
+            got = guarded(lambda: coll.intersects(q))
+            ck.count('collection.intersects')
+            if got != ('Ok', want):
+                coll_bad += 1
+                if coll_bad <= 2:
+                    ck.violation({'kind': 'property-fails-on-implementation',
+                                  'case': {'collection': type(coll).__name__, 'members': ks, 'member_dts': [str(m.dt) for m in coll.geoshapes],
+                                           'query_dt': str(q.dt), 'after_in_place_updates': step, 'observed': str(got), 'expected': want},
+                                  'detail': 'collection.intersects(q) differs from "some member intersects q (space and time)"'})
+            # re-time one member in place (set_dt / buffer_dt are in-place by default)
+            m = rng.choice(coll.geoshapes)
+            if retime is not None and step == 0:
+                retime[0][0].set_dt(mk_dt(retime[0][1], next(styles)))
+            elif step == 0:
+                m.set_dt(mk_dt(('i', rng.randrange(5)), next(styles)))
+            else:
+                m.buffer_dt(timedelta(hours=rng.choice([1, 2])))
     ck.cov['evaluations'] = len(cases)
     ck.cov['distinct_nontrivial'] = len(nontriv)
     for i in (0, 200, 900, len(cases) - 1):
